@@ -31,6 +31,7 @@ async def debounced_sorted_prefix(
     """
 
     buffer: list[T] = []
+    flushed = False
     debouncer = Debouncer(debounce_seconds, max_window_seconds)
     merged = merge_generators(inner, debouncer.aiter())
 
@@ -40,10 +41,14 @@ async def debounced_sorted_prefix(
             for buffered_item in buffer:
                 yield buffered_item
             buffer = []
+            flushed = True
         else:
             # item is T after checking != "__COMPLETE__"
             actual_item = cast(T, item)
-            if debouncer.is_complete:
+            # Pass through only once the sorted burst has actually been yielded:
+            # the debouncer may already be complete while its completion marker is
+            # still behind this item in the merged stream.
+            if flushed:
                 yield actual_item
             else:
                 debouncer.extend_window()
